@@ -14,7 +14,7 @@
                or whose NewSeqNo is below the expected number
      D24       (single_resend) a Logon arriving while RESENDREQ_AWAITING (see C04_logon_dup_resend_refuted) *)
 From Coq Require Import ZArith NArith List Bool Sorting.Sorted.
-From AF Require Import Base.Sx Py.Str Fix.Session Lemmas.SessionL Lemmas.SessionC04L.
+From AF Require Import Base.Sx Py.Str Fix.Session Lemmas.SessionL Lemmas.SessionC04L Lemmas.SessionC11L Lemmas.SessionC05L.
 Import ListNotations.
 Open Scope Z_scope.
 
@@ -51,6 +51,23 @@ Print Assumptions C04_inorder_partial.
 Theorem C04_single_resend : forall c h w, Forall resend_ok (run c w h).
 Proof. exact run_resend_ok. Qed.
 Print Assumptions C04_single_resend.
+
+(* "exactly one": a message without pre-handler (application, TestRequest, Heartbeat, ResendRequest) numbered
+   above the expected number, on a logged-on connection not yet awaiting a resend, makes the receiver write
+   exactly one ResendRequest(BeginSeqNo = next_num_in, EndSeqNo = 0), deliver nothing, keep next_num_in and wait
+   in RESENDREQ_AWAITING (or drop) - provided the outbound side is intact (Out_inv of C05: no D12 / D20 damage,
+   else the journal write of the request raises and the state is not advanced) and the send gate is open.
+   [SequenceReset: D11; acceptor Logon: D26; Logout: the session ends] *)
+Theorem C04_gap_is_requested_partial : forall c m now w n,
+  Out_inv w -> in_i64 (nout w) = true -> validate_integrity c m w = VOk -> get_int T34 m = inl n ->
+  nin w < n -> st w <> ST_AWAITING -> ST_NCE < st w -> gate_refuses (rr_msg w) w = false -> plain_kind m ->
+  exists rr, resends (re (process_message c m now w)) = [rr]
+             /\ get T7 (mtags rr) = Some (z_to_dec (nin w)) /\ get T16 (mtags rr) = Some S_0
+             /\ apps (re (process_message c m now w)) = []
+             /\ nin (rw (process_message c m now w)) = nin w
+             /\ (st (rw (process_message c m now w)) = ST_AWAITING \/ dead (rw (process_message c m now w))).
+Proof. exact gap_is_requested. Qed.
+Print Assumptions C04_gap_is_requested_partial.
 
 (* the expected number moves only: by one, on an accepted message that carries it; or, on a
    SequenceReset passing the integrity check, to that frame's own number or to its NewSeqNo *)
